@@ -237,6 +237,34 @@ func verifUnnamedFieldsRegion(v Value) bool {
 	return false
 }
 
+// verifNDUnion: a normalised union of exactly two alternatives of the given depth (so that the
+// alternatives themselves can be lists / objects / tuples with inner types).
+func verifNDUnion(name string, depth, maxElems int) Type {
+	a0 := VerifNDType(name+".u0", depth, maxElems, false)
+	a1 := VerifNDType(name+".u1", depth, maxElems, false)
+	zzverif.Assume(zzverif.And(a0.TypeID != TypeIDAny, a1.TypeID != TypeIDAny))
+	zzverif.Assume(a0.TypeID < a1.TypeID)
+	return Type{TypeID: TypeIDUnion, Union: struct{ Alternatives []Type }{Alternatives: []Type{a0, a1}}}
+}
+
+// VerifC10UnionLaws: the TypeSum laws for two UNION operands whose alternatives are themselves
+// container types (the case VerifC10Laws only reaches at depth 2).
+func VerifC10UnionLaws() {
+	d, e := zzverif.Param("D"), zzverif.Param("E")
+	a := verifNDUnion("a", d, e)
+	b := verifNDUnion("b", d, e)
+	zzverif.Reach("generated-pair")
+	zzverif.Known("C10-deep-merge", verifStructSumRegion(a, b))
+	sum := TypeSum(a, b)
+	zzverif.Assert(a.Is(sum) == TypeRelationIs, "TypeSum-upper-bound-left")
+	zzverif.Assert(b.Is(sum) == TypeRelationIs, "TypeSum-upper-bound-right")
+	zzverif.Assert(sum.Equals(TypeSum(b, a)), "TypeSum-commutative")
+	if inter := TypeIntersection(a, b); inter != nil {
+		zzverif.Assert(inter.Is(a) == TypeRelationIs, "TypeIntersection-contained-left")
+		zzverif.Assert(inter.Is(b) == TypeRelationIs, "TypeIntersection-contained-right")
+	}
+}
+
 // VerifC10Laws: reflexivity of Is, TypeSum upper bound / commutative / idempotent,
 // TypeIntersection contained in both, over arbitrary pairs of types.
 func VerifC10Laws() {
